@@ -773,6 +773,10 @@ def value_method(I, obj, name, args, kw, node):
                 raise Unsupported("mutation inside lifted body")
             obj.t = z3.SetAdd(obj.t, I.lift(args[0]))
             return Conc(None)
+    if isinstance(obj, SymStr) and name == "encode":
+        return SymV(fn("str_encode", Str, V)(obj.t))
+    if isinstance(obj, SymV) and name == "encode":
+        return SymV(fn("obj_encode", V, V)(obj.t))
     h = I.builtin_handlers.get("__value_method_hook__")
     if h is not None:
         r = h(I, obj, name, args, kw)
